@@ -462,9 +462,11 @@ class LRBFGaussianConditional(LConjugateFactorMGaussianConditional):
             + self.Dy * jnp.log(2.0 * jnp.pi)
         )
 
+        Lambda = self.Lambda  # bound now: the returned function is a value, not a view of self
+
         log_expectation_y = (
             lambda y: -0.5
-            * jnp.einsum("ab,ab -> a", y, jnp.einsum("abc,ac->ab", self.Lambda, y))
+            * jnp.einsum("ab,ab -> a", y, jnp.einsum("abc,ac->ab", Lambda, y))
             + jnp.einsum("ab,ab->a", y, linear_term)
             + constant_term
         )
@@ -677,9 +679,11 @@ class LSEMGaussianConditional(LConjugateFactorMGaussianConditional):
             + self.Dy * jnp.log(2.0 * jnp.pi)
         )
 
+        Lambda = self.Lambda  # bound now: the returned function is a value, not a view of self
+
         log_expectation_y = (
             lambda y: -0.5
-            * jnp.einsum("ab,ab -> a", y, jnp.einsum("abc,ac->ab", self.Lambda, y))
+            * jnp.einsum("ab,ab -> a", y, jnp.einsum("abc,ac->ab", Lambda, y))
             + jnp.einsum("ab,ab->a", y, linear_term)
             + constant_term
         )
